@@ -5,6 +5,7 @@ import (
 	"bytes"
 	"compress/gzip"
 	"fmt"
+	"os"
 	"strings"
 	"time"
 
@@ -150,7 +151,9 @@ func dir(name string) Ent { return Ent{Name: name, Type: tar.TypeDir, Mode: 0o75
 func sym(name, target string) Ent {
 	return Ent{Name: name, Type: tar.TypeSymlink, Link: target, Mode: 0o777}
 }
-func hard(name, target string) Ent { return Ent{Name: name, Type: tar.TypeLink, Link: target, Mode: 0o644} }
+func hard(name, target string) Ent {
+	return Ent{Name: name, Type: tar.TypeLink, Link: target, Mode: 0o644}
+}
 
 func pat(n int, salt byte) []byte {
 	b := make([]byte, n)
@@ -258,6 +261,12 @@ func Scenarios(t *Target) []Case {
 		lm := []Ent{reg("a", pat(50, 1)), reg(PrefetchLandmark, []byte{0xf}), reg("b", pat(50, 2)), reg(NoPrefetchLandmark, []byte{0xf}), reg("c", pat(50, 3))}
 		add(Case{Label: "needsopen-writer", Mode: "W", Calls: [][]Ent{lm}, Chunk: 100, MinChunk: 100000, NeedsOpen: true})
 		add(Case{Label: "needsopen-off-writer", Mode: "W", Calls: [][]Ent{lm}, Chunk: 100, MinChunk: 100000})
+	}
+	if t.Fmt == "g" && os.Getenv("VERIF_TIER") == "thorough" {
+		// the default chunk size (4 MiB) at its boundary; too big for the checker, model mode only
+		big := []Ent{reg("big", pat(4<<20+1, 9)), reg("exact", pat(4<<20, 8)), reg("small", pat(3, 7))}
+		add(Case{Label: "default-chunk-boundary-build", Mode: "B", Calls: [][]Ent{big}, Chunk: 0, Workers: 2, Level: 1})
+		add(Case{Label: "default-chunk-boundary-writer", Mode: "W", Calls: [][]Ent{big}, Chunk: 0, MinChunk: 5 << 20, Level: 1})
 	}
 	// the stream of the candidate findings
 	add(Case{Label: "finding-two-calls-minchunk", Mode: "W", Finding: true, MinChunk: 1000, Chunk: 0,
